@@ -193,6 +193,50 @@ fn history(sink: &mut Sink, r: &mut Rng, scratch: &str, bin: &str, with_renames:
     });
 }
 
+/// custom languages sharing one extension: the cache must notice every change of the definition
+/// that the registry lets win (the last one in name order)
+fn language_history(sink: &mut Sink, scratch: &str, bin: &str, variant: usize) {
+    if !sink.want() {
+        sink.skip();
+        return;
+    }
+    let dir = PathBuf::from(scratch).join(format!("l{}", sink.n));
+    let _ = std::fs::remove_dir_all(&dir);
+    std::fs::create_dir_all(dir.join("src")).unwrap();
+    let p = Proj { dir: dir.clone(), bin: bin.to_string() };
+    std::fs::write(dir.join("src/x.mine"), "# one\n; two\n// three\ncode\n").unwrap();
+    std::fs::write(dir.join("src/y.mine"), "; a\n; b\ncode\ncode\n").unwrap();
+    p.set_mtime("src/x.mine", 1_600_000_000);
+    p.set_mtime("src/y.mine", 1_600_000_000);
+    let cfg = |langs: &[(&str, &str)]| {
+        let mut t = String::from("version = \"2\"\n[content]\nmax_lines = 2\nextensions = [\"mine\"]\n");
+        for (name, marker) in langs {
+            t += &format!("[languages.{name}]\nextensions = [\"mine\"]\nsingle_line_comments = [\"{marker}\"]\n");
+        }
+        std::fs::write(dir.join(".sloc-guard.toml"), t).unwrap();
+    };
+    // each step is a configuration; after each, a cached and an uncached run must agree
+    let steps: Vec<Vec<(&str, &str)>> = match variant {
+        0 => vec![vec![("Aaa", "#"), ("Zzz", ";")], vec![("Aaa", "#"), ("Zzz", "//")], vec![("Aaa", "#"), ("Zzz", "#")]],
+        1 => vec![vec![("Aaa", "#"), ("Zzz", ";")], vec![("Aaa", "#"), ("Bbb", ";"), ("Zzz", "//")], vec![("Aaa", ";"), ("Bbb", "#")]],
+        _ => vec![vec![("Mmm", ";")], vec![("Mmm", ";"), ("Nnn", "#")], vec![("Lll", "//"), ("Mmm", ";")], vec![("Lll", "//"), ("Mmm", "#")]],
+    };
+    let mut pred = None;
+    let now = 1_700_000_000u64;
+    for (k, langs) in steps.iter().enumerate() {
+        cfg(langs);
+        for cmd in 0..2 {
+            let (rc_u, unc, _) = invoke(&p, now + k as u64, cmd, false);
+            let (rc_c, cac, err) = invoke(&p, now + k as u64, cmd, true);
+            if unc != cac || rc_u != rc_c {
+                pred = pred.or(Some(format!("after configuration step {k} ({langs:?}) with the cache: {cac:?} (exit {rc_c}); with --no-sloc-cache: {unc:?} (exit {rc_u}) {}", err.lines().next().unwrap_or(""))));
+            }
+        }
+    }
+    let _ = std::fs::remove_dir_all(&dir);
+    sink.push(Case { request: "noop".into(), implementation: "-".into(), pred: pred.map_or_else(|| "ok".to_string(), |p| format!("FAIL {p}")), tag: format!("languages/shared-extension/{variant}") });
+}
+
 /// every truncation point of a real cache file (and a few byte flips): the next run ignores it
 fn corruption(sink: &mut Sink, scratch: &str, bin: &str, step: usize) {
     let dir = PathBuf::from(scratch).join("corrupt");
@@ -261,9 +305,16 @@ pub fn run(tier: Tier, seed: u64, out: &str) {
             vec![(0, 0, 0), (0, 1, 1), (4, 5, m), (6, m, m), (8, 0, 3), (8, 1, 0), (8, 3, 1), (6, m, m)],
             // cache lost between runs
             vec![(0, 0, 3), (4, 9, m), (6, m, m), (5, m, m), (6, m, m), (0, 0, 0), (6, m, m)],
+            // a cached file rewritten with identical content, a run, and a same-size different
+            // rewrite, all within one second
+            vec![(0, 0, 0), (4, 5, m), (6, m, m), (0, 0, 0), (6, m, m), (0, 0, 1), (6, m, m), (4, 1, m), (6, m, m)],
+            vec![(0, 1, 2), (4, 7, m), (6, m, m), (4, 3, m), (0, 1, 2), (6, m, m), (0, 1, 0), (6, m, m), (6, m, m)],
         ];
         for sc in &scripts {
             history(&mut sink, &mut r, &scratch, &bin, true, Some(sc));
+        }
+        for v in 0..3 {
+            language_history(&mut sink, &scratch, &bin, v);
         }
         for i in 0..tier.scale(250, 10_000) {
             history(&mut sink, &mut r, &scratch, &bin, i % 5 == 4, None);
